@@ -129,4 +129,19 @@ theorem body_has_declared_size (size : Nat) (chunks : List (List Nat)) : (entryB
 example : ustarAccepted { path := some [97], size := some 3 } = true
     ∧ ustarAccepted { path := some [98], uid := 262144 } = false := by decide
 
+/-! ### the documented pathname normalisation is idempotent -/
+
+/-- For every format whose normalisation is "a directory gets a trailing '/'" (tar family, zip,
+7zip) or the identity (cpio, warc), normalising twice is normalising once: what a reader
+returns is already in normal form, which is the pathname part of "the read-back form is a
+fixed point".  (For ar, mtree, xar and iso9660 — basename / component cleaning — and for the
+other fields the fixed-point clause is checked on the real code by the engine's `rewrite` op only.) -/
+theorem norm_path_idem (f : WFmt) (ft : FType) (p : List Nat)
+    (hf : f ≠ .arbsd ∧ f ≠ .arsvr4 ∧ f ≠ .mtree ∧ f ≠ .xar ∧ f ≠ .iso9660) :
+    normPath f ft (normPath f ft p) = normPath f ft p := by
+  obtain ⟨h1, h2, h3, h4, h5⟩ := hf
+  cases f <;> simp only [normPath] <;> first | exact dirSlash_idem ft p | rfl | contradiction
+
+example : normPath .ustar .dir [100] = [100, 47] ∧ normPath .ustar .dir [100, 47] = [100, 47] := by decide
+
 end LA.C02
